@@ -843,6 +843,16 @@ def part_parse(ctx, nd):
             for t in fixed:
                 for strict in (True, False):
                     check_parse(ctx, rng, alg, d, strict, entries, cands, bound, render(t, rng, ws=False), t, nd)
+            # entries whose names read like float literals (valid pointer names): a name is a name
+            odd_names = ["Inf", "NaN", "Infinity", "Nan", "E1"]
+            entries_odd = [(n, rand_vec(rng, d)) for n in odd_names[:4]]
+            for t in [("name", "Inf"), ("name", "NaN"), ("name", "Infinity"), ("add", ("name", "Inf"), ("name", "Nan")),
+                      ("mul", ("int", 2), ("name", "NaN")), ("name", "E1")]:
+                for strict in (True, False):
+                    check_parse(ctx, rng, alg, d, strict, entries_odd, cands, bound, render(t, rng, ws=False), t, nd)
+            for text_, t_ in [("nan", ("name", "nan")), ("inf", ("name", "inf")), ("-inf", ("neg", ("name", "inf"))),
+                              ("infinity", ("name", "infinity")), (" nan ", ("name", "nan")), ("1_0", ("int", 10))]:
+                check_parse(ctx, rng, alg, d, True, entries, cands, bound, text_, t_, nd)
             for i in range(n_per):
                 entries, cands, bound = setup(rng, alg, d)
                 names = [n for n, _ in entries]
